@@ -13,7 +13,7 @@ import (
 )
 
 // GasPrice used by helper transactions: comfortably above any base fee the harness configures.
-var HelperGasPrice = big.NewInt(50_000_000_000)
+var HelperGasPrice = big.NewInt(2_000_000_000_000)
 
 // Deploy sends a create transaction with the given init code and returns the new address.
 func (n *Node) Deploy(from Account, init []byte, value *big.Int) (common.Address, abci.ResponseDeliverTx) {
